@@ -190,6 +190,7 @@ Section P5.
   (* ---------- arithmetic priors in the ModelTree: the attribute names do not matter for values ---------- *)
   Section Names.
     Variable bin : binop -> V -> V -> V.
+    Variable un : unop -> V -> V.
     Notation node := (node V).
 
     (* the operands of every arithmetic prior hang under left_ / right_ *)
@@ -201,6 +202,7 @@ Section P5.
           NTuple ((fix go (ms : list (string * (nat * node))) : list (string * (nat * node)) :=
                      match ms with [] => [] | (k, (i, c)) :: r => (k, (i, cn c)) :: go r end) ms)
       | NBin o _ _ l r => NBin o "left_" "right_" (cn l) (cn r)
+      | NUn o nm c => NUn o nm (cn c)               (* the operand name of a unary form is stored and read back *)
       | NModel cls ctor attrs =>
           NModel cls ctor ((fix go (a : list (string * node)) : list (string * node) :=
                               match a with [] => [] | (k, c) :: r => (k, cn c) :: go r end) attrs)
@@ -222,18 +224,19 @@ Section P5.
     Proof. induction ms as [|[k [i c]] ms IH]; simpl; [reflexivity|]. rewrite IH. reflexivity. Qed.
 
     (* values: an instance never looks at the attribute names of an arithmetic prior *)
-    Lemma inst_cn (a : nat -> option V) (n : node) : inst V bin a (cn n) = inst V bin a n.
+    Lemma inst_cn (a : nat -> option V) (n : node) : inst V bin un a (cn n) = inst V bin un a n.
     Proof.
-      induction n as [q|c|ms IH|o ln rn l r IHl IHr|cls ctor attrs IH|attrs IH] using (node_ind' V).
+      induction n as [q|c|ms IH|o ln rn l r IHl IHr|uo unm uc IHc|cls ctor attrs IH|attrs IH] using (node_ind' V).
       - reflexivity.
       - reflexivity.
       - cbn [cn]. rewrite cn_members_eq. rewrite !inst_tuple. f_equal. f_equal. unfold member_vals. f_equal.
         unfold cn_members. rewrite map_map. apply map_ext_in. intros [k [i c]] Hin. simpl. f_equal.
         rewrite Forall_forall in IH. exact (IH _ Hin).
       - cbn [cn inst]. rewrite IHl, IHr. reflexivity.
+      - cbn [cn inst]. rewrite IHc. destruct uc; reflexivity.
       - cbn [cn inst]. rewrite cn_attrs_eq. rewrite !inst_attrs_map.
-        assert (M : map (fun kv => (fst kv, inst V bin a (snd kv))) (cn_attrs attrs)
-                    = map (fun kv => (fst kv, inst V bin a (snd kv))) attrs).
+        assert (M : map (fun kv => (fst kv, inst V bin un a (snd kv))) (cn_attrs attrs)
+                    = map (fun kv => (fst kv, inst V bin un a (snd kv))) attrs).
         { unfold cn_attrs. rewrite map_map. apply map_ext_in. intros [k c] Hin. simpl. f_equal.
           rewrite Forall_forall in IH. exact (IH _ Hin). }
         rewrite M. reflexivity.
@@ -249,7 +252,7 @@ Section P5.
     Lemma ids_cn (n : node) : wf V n -> prior_ids V (cn n) = prior_ids V n.
     Proof.
       unfold prior_ids.
-      induction n as [q|c|ms IH|o ln rn l r IHl IHr|cls ctor attrs IH|attrs IH] using (node_ind' V); intro W.
+      induction n as [q|c|ms IH|o ln rn l r IHl IHr|uo unm uc IHc|cls ctor attrs IH|attrs IH] using (node_ind' V); intro W.
       - reflexivity.
       - reflexivity.
       - cbn [cn walk]. rewrite cn_members_eq. destruct W as [_ W].
@@ -260,6 +263,7 @@ Section P5.
       - destruct W as [Hne [Wl Wr]]. cbn [cn walk]. simpl.
         destruct (String.eqb_spec ln rn) as [E|_]; [contradiction|].
         rewrite !map_app, !snd_prefix. rewrite (IHl Wl), (IHr Wr). reflexivity.
+      - cbn [cn walk]. rewrite !snd_prefix. exact (IHc W).
       - cbn [cn walk]. rewrite cn_attrs_eq. destruct W as [_ W].
         induction attrs as [|[k c] attrs IHa]; [reflexivity|].
         inversion IH as [|? ? Hc Hr]; subst. simpl in Hc. destruct W as [W1 W2].
@@ -281,7 +285,7 @@ Section P5.
     (* same parameter order and count, and the same instance for every parameter vector *)
     Theorem vector_cn (n : node) (vec : list V) :
       wf V n -> ordered_ids V (cn n) = ordered_ids V n /\ prior_count V (cn n) = prior_count V n /\
-               inst_from_vector V bin (cn n) vec = inst_from_vector V bin n vec.
+               inst_from_vector V bin un (cn n) vec = inst_from_vector V bin un n vec.
     Proof.
       intro W. pose proof (ordered_ids_cn n W) as E. split; [exact E|]. split.
       - rewrite <- !ordered_ids_length, E. reflexivity.
@@ -337,7 +341,7 @@ Section P5.
                               = cn_attrs (ech V b' ch)).
         { intro b'. unfold ech, pchmap, cn_attrs. rewrite !map_map. apply map_ext_in. intros [nm c] Hin. simpl.
           rewrite Forall_forall in IH. pose proof (IH _ Hin b') as E0. simpl in E0. rewrite E0. reflexivity. }
-        destruct k as [cls ctor| |idx|o|cls ctor]; cbn [rebuild_bin_default rebuild_same].
+        destruct k as [cls ctor| |idx|o|uo|cls ctor]; cbn [rebuild_bin_default rebuild_same].
         + cbn [erase]. rewrite !erase_children, E. cbn [cn]. rewrite cn_attrs_eq. reflexivity.
         + cbn [erase]. rewrite !erase_children, E. cbn [cn]. rewrite cn_attrs_eq. reflexivity.
         + cbn [erase]. rewrite !erase_children. destruct b.
@@ -353,15 +357,16 @@ Section P5.
           * cbn [erase]. inversion IH as [|? ? Hl H2]; subst. inversion H2 as [|? ? Hr _]; subst. simpl in Hl, Hr.
             rewrite (Hl false), (Hr false). reflexivity.
           * destruct x as [xn xc]. reflexivity.
+        + cbn [erase]. rewrite !erase_children, E. destruct (ech V false ch) as [|[nm c] [|x t]]; reflexivity.
         + cbn [erase]. rewrite !erase_children, E. cbn [cn]. rewrite cn_attrs_eq. reflexivity.
     Qed.
 
-    Theorem db_arith (bin : binop -> V -> V -> V) (n : snode) (vec : list V) :
+    Theorem db_arith (bin : binop -> V -> V -> V) (un : unop -> V -> V) (n : snode) (vec : list V) :
       forall_nodes V db_chain_ok n = true -> all_occs V (db_occ_ok V cf) n = true -> wf V (tree V n) ->
       exists n', db_rt V cf n = Ok n' /\
                  ordered_ids V (tree V n') = ordered_ids V (tree V n) /\
                  prior_count V (tree V n') = prior_count V (tree V n) /\
-                 inst_from_vector V bin (tree V n') vec = inst_from_vector V bin (tree V n) vec.
+                 inst_from_vector V bin un (tree V n') vec = inst_from_vector V bin un (tree V n) vec.
     Proof.
       intros HQ HR W. eexists. split; [apply (db_image n HQ HR)|].
       unfold tree. rewrite erase_db_image. apply vector_cn. exact W.
